@@ -2,7 +2,7 @@
    Case:  ABF nd lower*nd width*nd nx*nd periodic*nd full min update cap maxf*nd szd same sub*nd hidej other*nd scaled sfac*(prod nx)
               tsf late ndata (cnt0*(prod nx) grad0*(prod nx * nd))*ndata nevents event*nevents
           late = number of steps the engine made before the bias was defined (0: defined at the start)
-          event = 0 x*nd e*nd o*nd j*nd boundary apply      (a step)
+          event = 0 x*nd e*nd o*nd j*nd boundary apply w*nd (a step; w = forces of the biases bypassing the extended Lagrangian)
                 | 1 cnt*(prod nx) grad*(prod nx * nd)       (restart: state file loaded into a new instance)
                 | 2 cnt*(prod nx) grad*(prod nx * nd)       (reload: state file loaded into the running instance)
    Output (one line): per step "bin .. fbin .. cf .. tf .. af .. cnt .. sum .. go .." joined by " ; ",
@@ -80,7 +80,8 @@ let () =
                | 0 ->
                  let x = nflist nd in let e = nflist nd in let o = nflist nd in let j = nflist nd in let b = nb () in
                  let a = nb () in
-                 EvStep { i_x = x; i_e = e; i_o = o; i_j = j; i_boundary = b; i_apply = a }
+                 let w = nflist nd in
+                 EvStep { i_x = x; i_e = e; i_o = o; i_j = j; i_boundary = b; i_apply = a; i_w = w }
                | 1 -> EvRestart (read_dataset ())
                | _ -> EvReload (read_dataset ())) in
            let ixs = all_indices nx in
@@ -102,11 +103,13 @@ let () =
            let s = ref !s0 in
            let outs = ref [] in
            let seg = ref [] in
+           let xcur = ref [] in       (* values last computed by the variables (they are not recomputed while asleep) *)
            List.iter (fun ev -> match ev with
              | EvRestart _ | EvReload _ ->
                s := abf_event_apply fops c !s ev; s0 := !s; outs := []; seg := []
              | EvStep i ->
                seg := i :: !seg;
+               if tsf <= 1 || awake (z_of_int tsf) (st_clk !s i) then xcur := i.i_x;
                let (s1, o) = if tsf > 1 then abf_mstep fops c (z_of_int tsf) !s i else abf_step fops c !s i in
                (* The grids of the model are functions idx -> value, each step wrapping the previous one in a
                   closure: evaluate them once on the bins of the grid and continue with table look-ups
@@ -119,9 +122,11 @@ let () =
                           s_cnt = (fun zix -> match Hashtbl.find_opt tc (key zix) with Some v -> v | None -> s1.s_cnt zix);
                           s_sum = (fun zix -> match Hashtbl.find_opt ts (key zix) with Some v -> v | None -> s1.s_sum zix) } in
                s := s1; outs := o :: !outs;
-               Buffer.add_string buf (Printf.sprintf "bin %s fbin %s cf %s tf %s af %s %s ; "
+               Buffer.add_string buf (Printf.sprintf "bin %s fbin %s cf %s tf %s af %s %s scr %d %d %d %d ; "
                                         (zs s1.s_bin) (zs s1.s_fbin) (fs o.o_fabf) (fs o.o_tf) (fs o.o_f)
-                                        (grid s1.s_cnt s1.s_sum))) events;
+                                        (grid s1.s_cnt s1.s_sum)
+                                        (int_of_z (abf_current_bin fops c !xcur)) (int_of_z (abf_count_current fops c s1 !xcur))
+                                        (int_of_z (abf_bin_num c)) (int_of_z (abf_count_current fops c s1 !xcur)))) events;
            (* the specification evaluated on the trace since the last state-file event (informational) *)
            let s0 = !s0 in
            let tr = List.combine (List.rev !seg) (List.rev !outs) in
